@@ -146,7 +146,7 @@ Proof.
   intros P ops sched HK HD Hnb st n m Ln Lm Hn Hm Cn Cm.
   pose proof (LockInv_run P sched (init_state P ops) HK HD Hnb (LockInv_init P ops HK)) as HI.
   destruct (HI n Ln Hn) as [A _]. destruct (HI m Lm Hm) as [B _].
-  specialize (A Cn). specialize (B Cm). fold st in A, B. rewrite A in B. inversion B. auto.
+  specialize (A Cn). specialize (B Cm). fold st in A, B. rewrite A in B. inversion B. subst. split; auto.
 Qed.
 
 (* ------------------------------------------------------------------------------------------------ *)
